@@ -437,7 +437,13 @@ spif_mbuff_cmp(spif_mbuff_t self, spif_mbuff_t other)
     int c;
 
     SPIF_OBJ_COMP_CHECK_NULL(self, other);
-    c = memcmp(SPIF_MBUFF_BUFF(self), SPIF_MBUFF_BUFF(other), MIN(self->len, other->len));
+    c = ((self->len && other->len)
+         ? (memcmp(SPIF_MBUFF_BUFF(self), SPIF_MBUFF_BUFF(other), MIN(self->len, other->len)))
+         : (0));
+    if (c == 0) {
+        /* Equal as far as the shorter one goes, so the shorter one sorts first. */
+        c = ((self->len < other->len) ? (-1) : ((self->len > other->len) ? (1) : (0)));
+    }
     return SPIF_CMP_FROM_INT(c);
 }
 
@@ -447,7 +453,15 @@ spif_mbuff_cmp_with_ptr(spif_mbuff_t self, spif_byteptr_t other, spif_memidx_t l
     int c;
 
     SPIF_OBJ_COMP_CHECK_NULL(self, other);
-    c = memcmp(SPIF_MBUFF_BUFF(self), other, len);
+    {
+        /* Compare the first len bytes, but never look beyond what the buffer owns. */
+        spif_memidx_t cnt = MIN(len, self->size);
+
+        c = ((cnt > 0) ? (memcmp(SPIF_MBUFF_BUFF(self), other, cnt)) : (0));
+        if ((c == 0) && (cnt < len)) {
+            c = -1;
+        }
+    }
     return SPIF_CMP_FROM_INT(c);
 }
 
@@ -498,10 +512,17 @@ spif_mbuff_ncmp(spif_mbuff_t self, spif_mbuff_t other, spif_memidx_t cnt)
     int c;
 
     SPIF_OBJ_COMP_CHECK_NULL(self, other);
-    if (cnt > self->len || cnt > other->len) {
-        cnt = MIN(self->len, other->len);
+    {
+        /* Compare the first cnt bytes of each; a buffer that ends earlier sorts first. */
+        spif_memidx_t len1 = MIN(self->len, cnt), len2 = MIN(other->len, cnt);
+
+        c = ((len1 > 0 && len2 > 0)
+             ? (memcmp(SPIF_MBUFF_BUFF(self), SPIF_MBUFF_BUFF(other), MIN(len1, len2)))
+             : (0));
+        if (c == 0) {
+            c = ((len1 < len2) ? (-1) : ((len1 > len2) ? (1) : (0)));
+        }
     }
-    c = memcmp(SPIF_MBUFF_BUFF(self), SPIF_MBUFF_BUFF(other), cnt);
     return SPIF_CMP_FROM_INT(c);
 }
 
